@@ -92,12 +92,35 @@ def run_history(w: World, rng: random.Random, steps: int, *, p_instr: float = 0.
     with recording(oracle):
         for k in range(steps):
             # --- request arrivals / cancellations (real state ops) ---
+            pre = sim
+            env.reporter.reports = []
+            adds = []
+            oracle.reset()
             if rng.random() < p_req:
                 for _ in range(rng.choice([1, 1, 2, 4])):
                     r = w.new_request(sim, pooling=rng.random() < 0.08)
                     sim = simulation_state_ops.add_request_safe(sim, r).unwrap()
+                    adds.append(r)
             if rng.random() < 0.3:
                 sim, _ = cancel.update(sim, env)
+            from nrel.hive.reporting.report_type import ReportType as _RT
+
+            cancels = [x.report["request_id"] for x in env.reporter.reports if x.report_type == _RT.CANCEL_REQUEST_EVENT]
+            from .encode import enc_request
+
+            recs.append(
+                {
+                    "op": "pre",
+                    "id": f"{tag}:{k}:pre",
+                    "pre": enc_sim(n, pre),
+                    "adds": [enc_request(n, r) for r in adds],
+                    "cancels": [n.get("req", c) for c in cancels],
+                    "post": enc_sim(n, sim),
+                    "events": [{"addRequest": {"r": n.get("req", r.id)}} for r in adds] + enc_events(n, env.reporter.reports),
+                    "oracle": oracle.encode(n),
+                    "skip": False,
+                }
+            )
             env.reporter.reports = []
             # --- probe (C09): one instruction applied alone to the current state, result discarded ---
             if sim.vehicles and rng.random() < p_probe:
